@@ -3439,6 +3439,33 @@ bool IGXMLScanner::laxElementValidation(QName* element, ContentLeafNameTypeVecto
             return laxThisOne;
         }
 
+        // handleRepetitions may have left an exhausted counted particle for a LATER entry of the
+        // element map that also accepts this element (see the comment there): whether the element
+        // is skipped / laxly assessed is decided by the entry actually taken, not by the first match
+        if (nextState != cm->getNextState(currState, i)) {
+            for (XMLSize_t j = i + 1; j < leafCount; j++) {
+                if (cm->getNextState(currState, j) != nextState)
+                    continue;
+                QName* name = cv->getLeafNameAt(j);
+                ContentSpecNode::NodeTypes t = cv->getLeafTypeAt(j);
+                bool accepts = false;
+                if (t == ContentSpecNode::Leaf)
+                    accepts = ((name->getURI() == elementURI)
+                               && XMLString::equals(name->getLocalPart(), element->getLocalPart()))
+                              || comparator.isEquivalentTo(element, name);
+                else if ((t & 0x0f) == ContentSpecNode::Any)
+                    accepts = true;
+                else if ((t & 0x0f) == ContentSpecNode::Any_Other)
+                    accepts = (name->getURI() != elementURI && elementURI != fEmptyNamespaceId);
+                else if ((t & 0x0f) == ContentSpecNode::Any_NS)
+                    accepts = (name->getURI() == elementURI);
+                if (accepts) {
+                    i = j;
+                    break;
+                }
+            }
+        }
+
         ContentSpecNode::NodeTypes type = cv->getLeafTypeAt(i);
         if ((type & 0x0f) == ContentSpecNode::Any ||
             (type & 0x0f) == ContentSpecNode::Any_Other ||
